@@ -646,15 +646,6 @@ func vC12ExerciseDecoded(q Point) *vC12Err {
 	})
 }
 
-// vC12LoneQuoteField: the fields section of a decoded frame ends in =" (a string value that is
-// only the opening quote). Since fix f6e5804 the decoder rejects that for a field with a key;
-// it still accepts it when the field key is empty (validation is skipped for empty keys, but
-// the engine's write path iterates those fields too and StringValue slices [1:0]). So on an
-// *accepted* frame this shape is exactly the residual known finding.
-func vC12LoneQuoteField(fields []byte) bool {
-	return bytes.HasSuffix(fields, []byte(`="`))
-}
-
 var vC12BinFieldPieces = []string{"a", "=", ",", `"`, `\`, "1", "i", "u", "t", ".", "-", "e", " ", "x", "\x00", "\xff", `a=1`, `b="s"`, `c=t`, `d=2i`, `e=3u`, `="`, `,=`}
 var vC12BinKeyPieces = []string{"m", ",", "=", `\`, " ", "a", "b", "\x00", "\xff", `,a=b`, `\,`, `\=`, `\ `}
 
@@ -728,10 +719,6 @@ func TestVerifC12BinaryDecoder(t *testing.T) {
 		if derr == nil {
 			oc = "accepted"
 			pp := q.(*point)
-			if vC12LoneQuoteField(pp.fields) {
-				st.Exclude(vC12SigBinaryEmptyKeyLQ)
-				rt.Skip("known finding shape")
-			}
 			if e := vC12ExerciseDecoded(q); e != nil {
 				rt.Fatalf("%s NewPointFromBytes(%q) accepted (key %q fields %q): %s", verifkit.Sig(e.sig), orig, pp.key, pp.fields, e.msg)
 			}
